@@ -724,6 +724,12 @@ func corpus() []core.Case {
 		{Tag: "corpus-flex", Lines: []string{"@ C14 flex 0", "append", "prepend", "append 1", "append 2", "append 3", "append 4 5", "prepend 6", "prepend 7 8 9", "prepend 10 11 12 13 14 15 16 17 18",
 			"get 0", "get -1", "get 18", "pop", "shift", "remove 3", "remove 99", "sub 2 5", "sub -1 -1", "sub 50 2", "len",
 			"pop", "pop", "pop", "pop", "pop", "pop", "pop", "pop", "pop", "pop", "pop", "pop", "pop", "pop", "pop", "pop", "pop", "prepend 1 2", "subset 1 -1", "shift", "shift"}},
+		// Prepend growth 0 -> 7 (n1+n2) -> 14 (2*cap), drained below cap/4 with fewer than 4 elements: shrink clamps newCap to 8
+		{Tag: "corpus-flex", Lines: []string{"@ C14 flex 0", "prepend 1 2 3 4 5 6 7", "prepend 8", "shift", "shift", "shift", "shift", "len", "shift", "get 2", "get 3", "len", "pop", "pop", "pop", "pop", "append 9", "get 0"}},
+		// bulk Append onto nil gives a size-class capacity in 9..15 (9 ints -> 10); Pop down to cap/4 = 2 elements
+		{Tag: "corpus-flex", Lines: []string{"@ C14 flex 0", "append 1 2 3 4 5 6 7 8 9", "pop", "pop", "pop", "pop", "pop", "pop", "len", "pop", "len", "get 1", "get 2", "prepend 7 8 9 10 11 12 13", "remove 1"}},
+		{Tag: "corpus-flex", Lines: []string{"@ C14 flex 12", "append 1 2 3 4", "remove 1", "len", "get 3", "sub 0 -1", "append 5 6 7 8 9 10 11 12 13 14 15 16 17 18 19 20 21 22 23 24 25 26 27 28 29 30 31 32 33 34 35 36 37", "sub 5 7", "subset 33 -1", "len", "get 3", "pop", "pop", "pop", "pop"}},
+		{Tag: "corpus", Lines: []string{"@ C14 calls", "copy -1 4 ; 1 2 3", "copy -2 5 ; 1 2 3", "copy -4 -2 ; 1 2 3", "copy -1 3 ; 1 2 3", "copy -1 2 ; 1 2 3", "copy -3 9 ; 7", "copy 2 9 ; 1 2 3", "copy -1 -1 ; e", "copy -1 1 ; nil"}},
 		{Tag: "corpus-flex", Lines: []string{"@ C14 flex 40", "append 1 2 3 4 5 6 7 8 9 10 11", "pop", "prepend 20", "pop", "pop", "sub 0 3", "subset 2 6", "prepend 1 2 3 4 5 6 7 8 9", "shift"}},
 	}
 }
@@ -1288,6 +1294,24 @@ func classify(c core.Case, out []string) []string {
 			p := strings.Fields(st)
 			cp, _ := strconv.Atoi(p[1])
 			ln, _ := strconv.Atoi(p[0])
+			if prevCap >= 0 && cp != prevCap && cp >= 9 && cp <= 15 {
+				ls = append(ls, "flex capacity becomes 9..15")
+			}
+			if prevCap >= 0 && cp < prevCap && t[0] != "subset" || t[0] == "subset" && prevCap > 8 && cp <= prevCap/2 && ln <= cp/2 {
+				// shrink() reallocated: newCap = max(8, 2*len)
+				if ln < 4 && cp == 8 {
+					ls = append(ls, "flex shrink clamped to 8 (len<4)")
+				} else if cp == 2*ln {
+					ls = append(ls, "flex shrink to 2*len")
+				}
+			}
+			if t[0] == "prepend" && prevCap >= 0 && cp > prevCap {
+				if cp == 2*prevCap {
+					ls = append(ls, "flex prepend grows to 2*cap")
+				} else {
+					ls = append(ls, "flex prepend grows to n1+n2")
+				}
+			}
 			switch {
 			case prevCap >= 0 && cp > prevCap:
 				ls = append(ls, "flex "+t[0]+" grows")
@@ -1328,6 +1352,23 @@ func classify(c core.Case, out []string) []string {
 		case "subslice", "copy", "chunk":
 			if strings.HasPrefix(o, "nil") {
 				lab += " ->nil"
+			}
+			if h[0] == "copy" && len(h) == 3 && len(gs) > 1 {
+				a, _ := strconv.Atoi(h[1])
+				b, _ := strconv.Atoi(h[2])
+				n := 0
+				if s1, ok := parseList(gs[1]); ok {
+					n = len(s1)
+				}
+				if a < 0 && n > 0 {
+					if b > n {
+						ls = append(ls, "copy start<0 length>len")
+					} else if b < 0 {
+						ls = append(ls, "copy start<0 length<0")
+					} else {
+						ls = append(ls, "copy start<0")
+					}
+				}
 			}
 		case "remove":
 			if strings.Contains(o, " false ") {
